@@ -17,6 +17,25 @@ func positions(t *Table) map[string]int {
 	return m
 }
 
+// classifyFor: with an inspected desired state unnamed foreign keys carry numeric symbols, not empty ones,
+// so the class two-unnamed-fks (empty symbols) does not apply
+func classifyFor(a, b Schema, inspected bool) string {
+	c := classify(a, b)
+	if !inspected {
+		return c
+	}
+	var keep []string
+	for _, x := range strings.Split(c, "+") {
+		if x != "two-unnamed-fks" {
+			keep = append(keep, x)
+		}
+	}
+	if len(keep) == 0 {
+		return "none"
+	}
+	return strings.Join(keep, "+")
+}
+
 func classify(a, b Schema) string {
 	set := map[string]bool{}
 	for ti := range b.Tables {
@@ -84,7 +103,7 @@ func classify(a, b Schema) string {
 		for _, f1 := range t.FKs {
 			for _, f2 := range bt.FKs {
 				if strings.Join(f1.Cols, ",") == strings.Join(f2.Cols, ",") && f1.RefTable == f2.RefTable &&
-					strings.Join(f1.RefCols, ",") == strings.Join(f2.RefCols, ",") && f1.Symbol != f2.Symbol && (f1.Symbol == "" || f2.Symbol == "") {
+					strings.Join(f1.RefCols, ",") == strings.Join(f2.RefCols, ",") && f1.Symbol != f2.Symbol {
 					set["fk-name-change"] = true
 				}
 			}
